@@ -226,7 +226,13 @@ def is_same(eng, a: V, b: V):
 
 def contains(eng, container: V, item: V, st):
     if isinstance(container, UnionV):
-        return Or(*[And(g, contains(eng, c, item, st)) for g, c in container.alts])
+        alts = []
+        for g, c in container.alts:
+            if isinstance(c, NoneV) and not getattr(eng, "spec_mode", False) and st is not None \
+                    and not eng.feasible(st.assume(g)):
+                continue  # the None alternative is excluded on this path
+            alts.append(And(g, contains(eng, c, item, st)))
+        return Or(*alts)
     if isinstance(container, StrV):
         if isinstance(item, UnionV):
             raise Unsupported("union in str")
